@@ -44,12 +44,40 @@ DRIVERS["D12"] = dict(
 )
 
 
+def _reuse(world):
+    """Out-of-band negotiation of a NEW channel on the stream id which channel `a` has freed (both ends at once, as
+    applications do); only once both ends of `a` are closed."""
+    a = world.channels.get("a")
+    if a is None or len(a.ends) < 2 or any(ch.readyState != "closed" for ch in a.ends.values()):
+        world.log.append(("reuse-skipped", world.point))
+        return
+    world._create("a2")
+    for i in range(3):
+        world._do_op(("send", "A", "a2", C.pay("a2", i, 60)))
+    for i in range(2):
+        world._do_op(("send", "B", "a2", C.pay("a2b", i, 60)))
+
+
+# a channel is used in both directions and closed; a new channel then re-uses its stream id: its messages start again at
+# stream sequence 0 on both sides and must be delivered in order whatever happens to its first datagrams
+DRIVERS["D13"] = dict(
+    setup="settled",
+    channels=[C.chan("a", negotiated=2), C.chan("a2", negotiated=2, scripted=True), C.chan("k", negotiated=5)],
+    script=[[("send", "A", "a", C.pay("a", 0, 60)), ("send", "A", "a", C.pay("a", 1, 60)), ("send", "B", "a", C.pay("ab", 0, 60)),
+             ("close", "A", "a")],
+            [("call", _reuse), ("send", "A", "k", C.pay("k", 0, 60))]],
+)
+
+# D2's traffic with both TSN spaces about to wrap (the initial TSN is random: this is what 1 connection in 2^30 starts with)
+DRIVERS["D14"] = dict(DRIVERS["D2"], tsn={"A": 2 ** 32 - 2, "B": 2 ** 32 - 3})
+
+
 def scenario(name):
     return C.make_factory(DRIVERS[name]), C.SctpOracle(safety=True, liveness=False), C.default_signature
 
 
-QUICK = [("D1", 2), ("D2", 2), ("D3", 2), ("D4", 2), ("D5", 2), ("D8", 1), ("D9", 1), ("D10", 2), ("D11", 2), ("D12", 2)]
-THOROUGH = [("D1", 2), ("D2", 3), ("D3", 3), ("D4", 4), ("D5", 3), ("D8", 2), ("D9", 2), ("D10", 3), ("D11", 3), ("D12", 3)]
+QUICK = [("D1", 2), ("D2", 2), ("D3", 2), ("D4", 2), ("D5", 2), ("D8", 1), ("D9", 1), ("D10", 2), ("D11", 2), ("D12", 2), ("D13", 2), ("D14", 2)]
+THOROUGH = [("D1", 2), ("D2", 3), ("D3", 3), ("D4", 4), ("D5", 3), ("D8", 2), ("D9", 2), ("D10", 3), ("D11", 3), ("D12", 3), ("D13", 3), ("D14", 3)]
 
 
 def run(tier, seed):
